@@ -87,8 +87,12 @@ impl<T: ?Sized> RwLock<T> {
         let cur = SyncBlocker::current();
         // register blocker first
         self.to_wake.push(cur.clone());
+        #[cfg(may_verif)]
+        crate::verif::label("rwlock.lock.registered", self as *const _ as *const u8 as usize);
         // inc the cnt, if it's the first grab, unpark the first waiter
         if self.cnt.fetch_add(1, Ordering::SeqCst) == 0 {
+            #[cfg(may_verif)]
+            crate::verif::label("rwlock.lock.first_grab", self as *const _ as *const u8 as usize);
             self.to_wake
                 .pop()
                 .map(|w| self.unpark_one(&w))
